@@ -213,6 +213,7 @@ template<class K,class V> struct map : __flat<pair<K,V>,__mcap<K,V>::v> {
   size_t erase(const K&k){ if(!__has(k)) return 0; erase(iterator(this,lower(k))); return 1; }
   template<class V2> void emplace(const K&k,const V2&v){ insert(slot(k,V(v))); }
   template<class V2> void insert_or_assign(const K&k,const V2&v){ (*this)[k]=V(v); }
+  template<class... A> pair<iterator,bool> try_emplace(const K&k,A&&... a){ bool had=__has(k); int i=lower(k); if(!had) __ins(i,k,V(static_cast<A&&>(a)...)); return pair<iterator,bool>(iterator(this,i),!had); }
   void __ins(int i,const K&k,const V&v){ (__CPROVER_assert(n<MCAP,"ministl: map capacity (model bound)"), __CPROVER_assume(n<MCAP)); for(int j=MCAP-1;j>0;j--) if(j<=n && j>i){ new(&u.d[j]) slot(u.d[j-1]); u.d[j-1].~slot(); } new(&__at(i)) slot(k,v); n++; }
   V& operator[](const K&k){ int i=lower(k); if(!__has(k)) __ins(i,k,V()); return __at(i).second; }
   void insert(const slot&p){ if(!__has(p.first)) __ins(lower(p.first),p.first,p.second); }
